@@ -193,7 +193,50 @@ def _oracle(spec, kern, x1, x2):
         return O.product_structure(kern.base_kernel, x1, x2)
     if k == "newton_girard":
         return O.newton_girard(kern, x1, x2)
+    if k in ("sum", "prod") or (k == "scale" and spec.get("base", {}).get("k") in ("sum", "prod")):
+        return _spec_dense(spec, kern, x1, x2)
     return O.dense(kern, x1, x2)
+
+
+def _spec_dense(spec, kern, x1, x2):
+    """compositions are evaluated along the SPEC tree (what was asked for: a sum is a sum, a product a product), not along the
+    object's own structure: the object's non-composite nodes (leaves and ScaleKernels, in depth-first order - the order that
+    flattening a nested sum / product keeps) are matched with the spec's, their values combined as the spec says"""
+    import gpytorch.kernels as K
+    from vf.oracle import kernels as O
+
+    objs = []
+
+    def walk(k_):
+        if isinstance(k_, (K.AdditiveKernel, K.ProductKernel)):
+            for kk in k_.kernels:
+                walk(kk)
+        else:
+            objs.append(k_)
+            if isinstance(k_, K.ScaleKernel):
+                walk(k_.base_kernel)
+
+    walk(kern)
+    it = iter(objs)
+
+    def ev(sp, a1, a2):
+        if sp["k"] in ("sum", "prod"):
+            out = None
+            for part in sp["parts"]:
+                v = ev(part, a1, a2)
+                out = v if out is None else (out + v if sp["k"] == "sum" else out * v)
+            return out
+        obj = next(it)
+        a1s, a2s = O._sub(obj, a1), O._sub(obj, a2)
+        if sp["k"] == "scale":
+            assert isinstance(obj, K.ScaleKernel), (sp, type(obj).__name__)
+            o = obj.outputscale.detach()
+            return o.reshape(*o.shape, 1, 1) * ev(sp["base"], a1s, a2s)
+        return O.dense(obj, a1s, a2s, sub=False)
+
+    out = ev(spec, x1, x2)
+    assert next(it, None) is None, "object has more non-composite nodes than the spec"
+    return out
 
 
 def _check_active(spec, kern, ctx):
